@@ -7,8 +7,40 @@ import (
 	"github.com/onflow/atree"
 )
 
+// KeyFaults is a fault plan for the harness's comparator and hash-input providers (CompareKey,
+// HashInput, HashInputBucket): the CompareFailAt-th comparison / HashFailAt-th hash-input request made
+// while the plan is armed fails with ErrInjected (0 = never).  It lets a stream fail the callbacks that a
+// parent map CAPTURED when a child was fetched or inserted (the parent notification looks the child up
+// again with them), which the stream cannot replace afterwards.
+var KeyFaults struct {
+	CompareFailAt, HashFailAt int
+	compares, hashes          int
+	Hits                      int
+}
+
+// ArmKeyFaults arms (or, with 0, 0, disarms) the fault plan and resets its counters.
+func ArmKeyFaults(compareFailAt, hashFailAt int) {
+	KeyFaults.CompareFailAt, KeyFaults.HashFailAt = compareFailAt, hashFailAt
+	KeyFaults.compares, KeyFaults.hashes, KeyFaults.Hits = 0, 0, 0
+}
+
+func hashFault() bool {
+	if KeyFaults.HashFailAt == 0 {
+		return false
+	}
+	KeyFaults.hashes++
+	if KeyFaults.hashes == KeyFaults.HashFailAt {
+		KeyFaults.Hits++
+		return true
+	}
+	return false
+}
+
 // HashInput is the harness's HashInputProvider for TV keys.
 func HashInput(v atree.Value, buf []byte) ([]byte, error) {
+	if hashFault() {
+		return nil, ErrInjected
+	}
 	tv, ok := AsTV(v)
 	if !ok {
 		return nil, fmt.Errorf("hash input: not a TV: %T", v)
@@ -21,6 +53,13 @@ func HashInput(v atree.Value, buf []byte) ([]byte, error) {
 
 // CompareKey is the harness's ValueComparator: equality of (size, payload).
 func CompareKey(st atree.SlabStorage, v atree.Value, s atree.Storable) (bool, error) {
+	if KeyFaults.CompareFailAt != 0 {
+		KeyFaults.compares++
+		if KeyFaults.compares == KeyFaults.CompareFailAt {
+			KeyFaults.Hits++
+			return false, ErrInjected
+		}
+	}
 	tv, ok := AsTV(v)
 	if !ok {
 		return false, fmt.Errorf("compare: key is %T", v)
@@ -30,6 +69,8 @@ func CompareKey(st atree.SlabStorage, v atree.Value, s atree.Storable) (bool, er
 		return x == tv, nil
 	case FS: // a key storable whose StoredValue() can fail: compared without calling it
 		return x.TV == tv, nil
+	case NK:
+		return x.TV() == tv, nil
 	case atree.SlabIDStorable:
 		sv, err := x.StoredValue(st)
 		if err != nil {
@@ -129,6 +170,9 @@ func Digests(b atree.DigesterBuilder, key TV) ([]uint64, error) {
 // default digester this produces genuine collisions on every level between keys of one bucket, and
 // exercises the library's pooled digesters beyond level 0.
 func HashInputBucket(v atree.Value, buf []byte) ([]byte, error) {
+	if hashFault() {
+		return nil, ErrInjected
+	}
 	tv, ok := AsTV(v)
 	if !ok {
 		return nil, fmt.Errorf("hash input: not a TV: %T", v)
